@@ -102,7 +102,8 @@ def bounds(tier, seed):
             'aggregation': {'n_generic': [1, 8], 'scales': [0.1, 1.0, 10.0], 'tie_vectors': 'n<=4',
                             'params': PARAMS['thorough'], 'active_set_options': sorted(ASET_OPTS),
                             'scaling': ['none', 'undamped']},
-            'histories': {'depth': 'levels 4, 5', 'tables_per_set': 3,
+            'histories': {'depth': 'levels: 4 (damping 0/.3/.7, matched), 4 (damping .5/.9 and opposite which), 5',
+                          'tables_per_set': 3,
                           'table_sets': ['n1', 'n2', 'n3', 'n5', 'mixed', 'ties', 'scaled'],
                           'damping': ['0', '0.3', '0.7', '0.5', '0.9'], 'params': HIST_PARAMS,
                           'which': ['matched', 'opposite'], 'active_set_options': ['none', 'amt', 'hi0', 'lo', 'rel']},
@@ -126,10 +127,17 @@ def aset_cases(n, group, lo, hi, prefix_len=0):
 
 
 def agg_cases(n, group, tier):
-    for cls in CLASSES:
-        for opt in ASET_OPTS:
-            yield {'kind': 'agg', 'n': n, 'vecs': group, 'cls': cls, 'params': PARAMS[tier][cls], 'aset': opt,
-                   'scalings': ['none', 'undamped']}
+    # cases of comparable cost: at most 9 tie vectors (leading digits fixed by 'prefix') or 3 generic vectors each
+    if group[0] == 'tie':
+        subs = [dict(vecs=group, prefix=list(pre)) if pre else dict(vecs=group)
+                for pre in itertools.product(range(3), repeat=max(0, n - 2))]
+    else:
+        subs = [dict(vecs=group[:2] + [sc]) for sc in (group[2:] or [1.0])]
+    for sub in subs:
+        for cls in CLASSES:
+            for opt in ASET_OPTS:
+                yield dict({'kind': 'agg', 'n': n, 'cls': cls, 'params': PARAMS[tier][cls], 'aset': opt,
+                            'scalings': ['none', 'undamped']}, **sub)
 
 
 def hist_cases(depth, tabsets, dampings, opts, seed, whichs=('matched',)):
@@ -162,8 +170,9 @@ def generate(tier, seed):
     if tier == 'quick':
         yield from hist_cases(4, ['n1', 'n3', 'mixed', 'ties'], ['0', '0.3', '0.7'], ['none', 'amt', 'hi0'], seed)
         return
-    yield from hist_cases(4, ['n1', 'n2', 'n3', 'n5', 'mixed', 'ties', 'scaled'], ['0', '0.3', '0.7', '0.5', '0.9'],
-                          ['none', 'amt', 'hi0', 'lo', 'rel'], seed, whichs=('matched', 'opposite'))
+    all_sets = ['n1', 'n2', 'n3', 'n5', 'mixed', 'ties', 'scaled']
+    all_opts = ['none', 'amt', 'hi0', 'lo', 'rel']
+    yield from hist_cases(4, all_sets, ['0', '0.3', '0.7'], all_opts, seed)
     yield {'__level__': 'active_set/other_level_sets_n<=5'}
     for name in agg.POSITIVE_LEVELS + ['LM']:
         if name == ls:
@@ -175,6 +184,9 @@ def generate(tier, seed):
         yield from aset_cases(n, ['gen', seed], lo, hi)
     yield {'__level__': 'active_set/ties_n6'}
     yield from aset_cases(6, ['tie', ls], lo, hi, prefix_len=1)
+    yield {'__level__': 'scaling_histories/depth4/more_damping_and_opposite_which'}
+    yield from hist_cases(4, all_sets, ['0.5', '0.9'], all_opts, seed)
+    yield from hist_cases(4, all_sets, ['0', '0.3', '0.7', '0.5', '0.9'], all_opts, seed, whichs=('opposite',))
     yield {'__level__': 'active_set/ties_n7'}
     yield from aset_cases(7, ['tie', ls], lo, hi, prefix_len=2)
     yield {'__level__': 'scaling_histories/depth5'}
@@ -442,8 +454,8 @@ def exec_agg(pym, case):
                     true = agg.true_extreme(xs, which)
                     if S is None or not abs(S - true) <= agg.tol(true):
                         add({'check': 'undamped_exact',
-                             'signature': {'check': 'undamped_exact', 'module': cls, 'call': 'first'},
-                             'detail': {'x': x, 'x_selected': xs, 'value': S, 'true_extreme': true, 'which': which,
+                             'signature': {'check': 'undamped_exact', 'call': 'first'},
+                             'detail': {'module': cls, 'x': x, 'x_selected': xs, 'value': S, 'true_extreme': true, 'which': which,
                                         CLASSES[cls]: prm, 'active_set': opt}}, vec, prm, sc)
                         continue
                     outcomes.add(f"{cls}:{'+' if prm > 0 else '-'}:scaled_exact")
@@ -486,13 +498,13 @@ def run_history(pym, case, seq, twin):
         s_prev = model.s
         s_ref = model.step(true, approx)
         S = scalar(m.sig_out[0].state)
-        det = {'sequence_of_tables': list(seq[:k + 1]), 'call': k, 'x': x, 'x_selected': xs, 'true': true,
+        det = {'module': cls, 'sequence_of_tables': list(seq[:k + 1]), 'call': k, 'x': x, 'x_selected': xs, 'true': true,
                'approx_unscaled': approx, 'damping': float(d), 's_previous_reference': s_prev, 's_reference': s_ref,
                's_module': getattr(m, 'sf', None), 'output': S, 'expected_output': s_ref * approx, 'which': which}
         sig_call = 'first' if k == 0 else 'later'
         if float(d) == 0.0 and (S is None or not abs(S - true) <= agg.tol(true)):
             return k + 1, {'check': 'undamped_exact',
-                           'signature': {'check': 'undamped_exact', 'module': cls, 'call': sig_call},
+                           'signature': {'check': 'undamped_exact', 'call': sig_call},
                            'detail': det, 'case': dict(case, seq=list(seq[:k + 1]))}, 'bad', None
         ok_out = S is not None and abs(S - s_ref * approx) <= agg.tol(max(abs(true), abs(s_ref * approx)))
         sf = getattr(m, 'sf', None)
